@@ -464,6 +464,7 @@ def body(rep, tier, seed, p, late, lap):
         if k0 in confirmed:
             rep.sample(dict(kind="race report (violation)", key=k0, report=confirmed[k0]["report"][:1200]))
     rep.cov["distinct_race_keys_confirmed"] = sorted(confirmed)
+    rep.cov["violation_keys"] = sorted(reported)
 
 
 # ------------------------------------------------------------------------------------------------ replay
